@@ -223,6 +223,21 @@ def noEmptyList : List SConn → Bool
 end
 
 
+/-! ### the resolver's normal form, executably (`NF` of Lemmas/ResolveNF.lean; `nfB_iff` there) -/
+
+def SConn.nfLeafB : SConn → Bool
+  | .sig _ _ => true
+  | .slice (.sig _ w) idx =>
+    match sliceInner w idx with
+    | .ok inner => !(decide (inner.step > 0) && inner.width.toNat == w)
+    | .error _ => false
+  | _ => false
+
+def SConn.nfB : SConn → Bool
+  | .concat ps => !ps.isEmpty && ps.all SConn.nfLeafB
+  | c => c.nfLeafB
+
+
 /-! ### unit-step expressions (what the property demands be accepted: integer indices and unit-step ranges) -/
 
 def Index.unit : Index → Bool
